@@ -147,7 +147,27 @@ HEADERS = [
     }
     pub fn go() { let s = String::from("q"); let l = Lexer::new_with_state("ab", (Box::new(|x: &str| -> &str { x }), &s)); let v: Vec<_> = l.map(|r| r.unwrap().1).collect(); assert_eq!(v, vec![2, 2]); }
 """),
-]
+("action forms: generic fn paths (=> and =?), block, constant expression, match with commas, move closure", """
+    use lexgen_util::SemanticActionResult;
+    const K: u32 = 40;
+    fn handler<'input, I: Iterator<Item = char> + Clone>(lexer: &mut Lexer<'input, I>) -> SemanticActionResult<Result<u32, String>> { let n = lexer.match_().len() as u32; lexer.return_(Ok(n)) }
+    fn fallible<'input, I: Iterator<Item = char> + Clone>(lexer: &mut Lexer<'input, I>) -> SemanticActionResult<Result<u32, String>> { let m = lexer.match_(); lexer.return_(if m == "cc" { Err("cc".to_string()) } else { Ok(3) }) }
+    lexer! {
+        pub Lexer -> u32;
+        type Error = String;
+        'a'+ =? handler,
+        'b' => { |lexer| lexer.return_(2) },
+        'c'+ =? fallible,
+        'd' = K + 2,
+        'e' => |lexer| lexer.return_(match lexer.match_() { "e" => 5, _ => 6 }),
+        'f' => move |lexer| { let (x, y) = (1u32, 6u32); lexer.return_(x + y) },
+        ' ',
+    }
+    pub fn go() {
+        let v: Vec<_> = Lexer::new("aaa b c cc d e f").map(|r| r.map(|t| t.1).map_err(|e| format!("{:?}", e.kind))).collect();
+        assert_eq!(v, vec![Ok(3), Ok(2), Ok(3), Err("Custom(\\"cc\\")".to_string()), Ok(42), Ok(5), Ok(7)]);
+    }
+""")]
 
 
 def gen_source():
